@@ -39,6 +39,15 @@ def main(prop):
         assert t["id"] not in ids, t["id"]
         ids.add(t["id"])
     results = lemmas.run_templates(run, tpls)
+    # CrossHair leaf lemmas: lift the enumerated vocabulary / numbers to symbolic names and bounds
+    from vlib import ch
+    from checks import leafharness
+
+    leaves = {"C01": leafharness.c01_leaves, "C02": leafharness.c02_leaves}.get(prop)
+    if leaves:
+        hs = leaves(tier())
+        ch.run_harnesses(run, hs)
+        run.coverage_extra["leaf_lemmas"] = {"harnesses": len(hs), "confirmed_over_all_paths": run.counts.get("ch:confirmed", 0)}
     nontrivial = sum(1 for r in results if not r["error"] and any(o["lemma"] == "AEM" for o in r["obl"]))
     cov = {
         "programs": len(tpls),
